@@ -261,6 +261,14 @@ func renderIncrementNonce(fd *ast.FuncDecl) (string, error) {
 		switch g.ExprText(e) {
 		case "math.MaxUint64":
 			return "18446744073709551615", true
+		case "math.MaxInt64":
+			return "9223372036854775807", true
+		case "math.MaxUint32":
+			return "4294967295", true
+		case "math.MaxInt32":
+			return "2147483647", true
+		case "math.MaxUint16":
+			return "65535", true
 		}
 		if bl, ok := e.(*ast.BasicLit); ok && bl.Kind == token.INT {
 			return bl.Value, true
